@@ -203,11 +203,14 @@ void bspline_deriv_nonzero(const double* knots, const unsigned nknots,
 {
 	int i, j;
 	double temp, a;
-	double delta_l[n], delta_r[n];
 	
 	/* Special case for constant splines */
-	if (n == 0)
+	if (n == 0) {
+		biatx[0] = 0;
 		return;
+	}
+	
+	double delta_l[n], delta_r[n];
 	
 	/*
 	 * Handle the (rare) cases where x is outside the full
